@@ -98,6 +98,18 @@ func c05Worker() {
 			if rep := GI0(req["rep"]); rep > 1 {
 				input = bytes.Repeat(input, rep) // long inputs are described, not transmitted
 			}
+			// the input is handed over as a sub-slice of a larger buffer (spare capacity and guard bytes around it, as when a
+			// caller parses the front part of what it received): a read-only operation leaves the surroundings alone too
+			var frame []byte
+			if len(input) < 1<<20 {
+				frame = make([]byte, len(input)+16)
+				for i := range frame {
+					frame[i] = 0x5a
+				}
+				copy(frame[8:], input)
+				input = frame[8 : 8+len(input)]
+			}
+			frameKeep := append([]byte(nil), frame...)
 			keep := append([]byte(nil), input...)
 			arg := GI(req["arg"])
 			r := Ev{"outcome": "", "panic": "", "site": "", "alloc": 0, "stack": 0, "input_same": true}
@@ -137,7 +149,7 @@ func c05Worker() {
 				}
 				r["stack"] = int(st)
 			}
-			r["input_same"] = bytes.Equal(input, keep)
+			r["input_same"] = bytes.Equal(input, keep) && bytes.Equal(frame, frameKeep)
 			reply(r)
 		}
 		if err != nil {
